@@ -12,7 +12,7 @@ open Shape
 
 /-- acts that only touch queues -/
 def Act.silent : Act → Bool
-  | .enq .. | .regSource _ | .closeSig _ | .redrawSig _ | .schedRedraw => true
+  | .regSource _ | .closeSig _ | .redrawSig _ | .schedRedraw => true
   | _ => false
 
 /-- instructions whose only effect on the shape view is to disappear (when they do not raise) -/
@@ -174,11 +174,14 @@ inductive SStepE (P : Prog) : SV → List Tr → SV → Prop
       SStepE P v [] { v with code := [.mainCheck 0, .catchExit, .quitCb] ++ rest, forceQuit := false, runLoop := true }
   | restore {v : SV} {rest : List Instr} :
       v.code = .restoreRun :: rest → v.forceQuit = false → SStepE P v [] { v with code := rest, runLoop := true }
+  | enqAct {v : SV} {rest : List Instr} {cls : Cls} {prio : Int} {src : Src} {sid : Nat} :
+      v.code = .act (.enq cls prio src sid) :: rest →
+      SStepE P v [] (SV.noteExc { v with code := rest } (cls == .exception))
   | «open» {v : SV} {rest : List Instr} {s : Sig} :
       v.code = .newLoop s :: rest → v.forceQuit = false →
       SStepE P v [.openLevel v.nq v.runLoop]
-        { v with code := .mainCheck v.nq :: rest, levels := v.levels ++ [v.nq], active := v.nq, nq := v.nq + 1,
-                 ev := .openLevel v.nq v.runLoop :: v.ev }
+        (SV.noteExc { v with code := .mainCheck v.nq :: rest, levels := v.levels ++ [v.nq], active := v.nq,
+                             nq := v.nq + 1, ev := .openLevel v.nq v.runLoop :: v.ev } (s.cls == .exception))
   | pop {v : SV} {rest : List Instr} {q a : Nat} :
       v.code = .popLevel :: rest → v.levels.getLast? = some q → v.levels.dropLast.getLast? = some a →
       SStepE P v [.closeLevel q]
@@ -241,10 +244,14 @@ theorem SStep.apprun {P : Prog} {v : SV} {rest : List Instr} (h : v.code = .appr
   ⟨_, .apprun h⟩
 theorem SStep.restore {P : Prog} {v : SV} {rest : List Instr} (h : v.code = .restoreRun :: rest)
     (hf : v.forceQuit = false) : SStep P v { v with code := rest, runLoop := true } := ⟨_, .restore h hf⟩
+theorem SStep.enqAct {P : Prog} {v : SV} {rest : List Instr} {cls : Cls} {prio : Int} {src : Src} {sid : Nat}
+    (h : v.code = .act (.enq cls prio src sid) :: rest) :
+    SStep P v (SV.noteExc { v with code := rest } (cls == .exception)) := ⟨_, .enqAct h⟩
 theorem SStep.open {P : Prog} {v : SV} {rest : List Instr} {s : Sig} (h : v.code = .newLoop s :: rest)
     (hf : v.forceQuit = false) :
-    SStep P v { v with code := .mainCheck v.nq :: rest, levels := v.levels ++ [v.nq], active := v.nq, nq := v.nq + 1,
-                       ev := .openLevel v.nq v.runLoop :: v.ev } := ⟨_, .open h hf⟩
+    SStep P v (SV.noteExc { v with code := .mainCheck v.nq :: rest, levels := v.levels ++ [v.nq], active := v.nq,
+                                   nq := v.nq + 1, ev := .openLevel v.nq v.runLoop :: v.ev } (s.cls == .exception)) :=
+  ⟨_, .open h hf⟩
 theorem SStep.pop {P : Prog} {v : SV} {rest : List Instr} {q a : Nat} (h : v.code = .popLevel :: rest)
     (hq : v.levels.getLast? = some q) (ha : v.levels.dropLast.getLast? = some a) :
     SStep P v { v with code := rest, levels := v.levels.dropLast, active := a, runLoop := false,
